@@ -29,3 +29,15 @@ def emit_all(emit):
             "(call, rational arguments, string arguments, outcome of the real implementation: accepted or exception "
             f"class), part {k} of {n_chunks}",
         )
+
+    # round 6: the guards of every covered entry point, read from the current source with `ast`
+    from ..props import c20_guards
+
+    emit(
+        "c20Guards",
+        "List (String × List (String × Int × String))",
+        [(entry, c20_guards.flatten(stmts)) for entry, stmts in c20_guards.all_guards().items()],
+        "guards (`if cond: raise Cls`, early returns, mutations before a guard) of the covered entry points as the "
+        "translator cbv/props/c20_guards.py reads them from the source, flattened in prefix notation: rows (tag, int, str); "
+        "syntax and semantics in CBV/Model/C20Syntax.lean",
+    )
